@@ -11,6 +11,9 @@ void snoopy_inputdatastorage_store_argv(char *const argv[]);
 void snoopy_inputdatastorage_store_envp(char *const envp[]);
 int snoopy_datasource_cmdline(char *const, size_t, char const *const);
 int snoopy_datasource_filename(char *const, size_t, char const *const);
+int snoopy_datasourceregistry_getCount(void);
+char *snoopy_datasourceregistry_getName(int);
+int snoopy_datasourceregistry_callById(int, char *const, size_t, char const *const);
 
 static char *empty_env[] = { NULL };
 
@@ -56,6 +59,28 @@ static void handle(int nf, char **f, FILE *out) {
         if (n >= sz) { fprintf(out, "unterminated"); return; }
         fprintf(out, "ok\t"); put_hex(out, buf, n);
         free(buf);
+    } else if (!strcmp(f[0], "dsall") && nf == 6) {
+        /* dsall size arg filename argv env: EVERY data source of the registry into an exactly sized heap buffer (ASan watches the
+         * red zone); prints name=len for each, or name=UNTERMINATED: the contract "strlen(result) < size" that C05_ds_bounded assumes */
+        size_t sz = strtoull(f[1], 0, 10);
+        vbytes arg = parse_bytes(f[2]), file = parse_bytes(f[3]);
+        vlist argv = parse_list(f[4]), env = parse_list(f[5]);
+        environ = env.isnull ? NULL : env.v;
+        fprintf(out, "ok");
+        int n = snoopy_datasourceregistry_getCount();
+        for (int i = 0; i < n; i++) {
+            snoopy_init();
+            snoopy_inputdatastorage_store_filename(file.p);
+            snoopy_inputdatastorage_store_argv(argv.v);
+            snoopy_inputdatastorage_store_envp(env.isnull ? empty_env : env.v);
+            char *buf = malloc(sz); memset(buf, 'Z', sz); buf[0] = 0;   /* message.c clears the first byte before every call */
+            snoopy_datasourceregistry_callById(i, buf, sz, arg.p);
+            snoopy_cleanup();
+            size_t l = strnlen(buf, sz);
+            if (l >= sz) fprintf(out, "\t%s=UNTERMINATED", snoopy_datasourceregistry_getName(i));
+            else fprintf(out, "\t%s=%zu", snoopy_datasourceregistry_getName(i), l);
+            free(buf);
+        }
     } else fprintf(out, "driver-error:bad-case");
 }
 
